@@ -108,14 +108,18 @@ def run(ctx):
         inner = gen.cfg_line(c) + (" %d " % (deep % 2) if api == "tree" else " ") + vlib.mat_line(M)
         col.lines.append(("%d 0 %s" % (SUBS[api], inner), api, None))
         deep += 1
-    # the strong variants run a second phase on the transpose: wide full-row-rank products L*X (equimodular by construction, the
-    # transpose usually not) make the second phase matter; every k is injected
+    # the strong variants run a second phase on the transpose: tall matrices of full column rank are equimodular (basis = all
+    # columns, X = I) while their transpose usually is not, so the answer is decided in the second phase; every k is injected
     erng = ctx.rng.fork("c18-equistrong")
-    for l in gen.equi_cert_lines(erng, 40 if ctx.quick else 600, 6):
-        t = l.split()
-        m, n = int(t[2]), int(t[3])
-        mat = " ".join(t[2:4 + m * n])
-        col.lines.append(("%d 0 %d 0 %s" % (SUBS["equimod"], erng.choice([1, 3]), mat), "equimod", None))
+    for _ in range(60 if ctx.quick else 900):
+        n = 2 + erng.below(3)
+        extra = 2 + erng.below(3)
+        M = [[1 if a == b else 0 for b in range(n)] for a in range(n)]          # an identity block: determinant gcd 1
+        alpha = [-1, 1, 1, 0] if erng.below(4) else [-2, -1, 0, 1, 2, 3]    # ternary rows: the TU test of the transpose's X runs deep
+        M += [[erng.choice(alpha) for _ in range(n)] for _ in range(extra)]
+        M = erng.shuffle(M)
+        m = len(M)
+        col.lines.append(("%d 0 %d 0 %s" % (SUBS["equimod"], erng.choice([1, 3]), vlib.mat_line(M, m, n)), "equimod", None))
     evaluate(ctx, col.lines)
 
 
